@@ -207,7 +207,10 @@ func cmdCheck(args []string) int {
 				fmt.Fprintln(os.Stderr, e)
 			}
 		}
-		if !*noReplay && !*noValidate {
+		if !*noReplay && !*noValidate && !hasOpenKnown(known, *prop, hr.Name) {
+			// (a harness whose assertion is an open known finding that depends on
+			// a thread schedule can hit the finding by chance in a native sample
+			// run; that is the finding, not an engine disagreement)
 			nval := 3
 			if *tier == "thorough" {
 				nval = cfg.SamplePaths
@@ -323,6 +326,15 @@ func loadKnown(path string) []KnownFinding {
 	var k []KnownFinding
 	json.Unmarshal(b, &k)
 	return k
+}
+
+func hasOpenKnown(k []KnownFinding, prop, harness string) bool {
+	for i := range k {
+		if k[i].Property == prop && k[i].Status == "open" && strings.HasPrefix(k[i].Signature, harness+"/") {
+			return true
+		}
+	}
+	return false
 }
 
 func matchKnown(k []KnownFinding, prop, sig string) *KnownFinding {
